@@ -649,10 +649,14 @@ def run(ctx):
             vals = sorted(v for v, _ in t["targets"])
             want = sorted([f.consts[PDU + "SerialQuery::PDU"]["v"], f.consts[PDU + "ResetQuery::PDU"]["v"], f.consts[PDU + "Error::PDU"]["v"]])
             reach = rb.reachable(t["otherwise"])
-            errs = [K.arg_renders(c) for c in rb.calls() if c.bb in reach and c.res == PDU + "Error::new" and
+            errs = [[render(K.fold_consts(a_, f.consts)) for a_ in K.arg_terms(c)] for c in rb.calls() if c.bb in reach and c.res == PDU + "Error::new" and
                     c.bb not in set().union(*[rb.reachable(tb) for _, tb in t["targets"]])]
+            # the header that is quoted (and whose version is used) is the very value whose PDU type was switched on
+            dt = strip_deep(sym.operand(t["discr"]))
+            hdr = render(dt[2][0]) if dt[0] == "call" and dt[2] else None
             ok = vals == want and len(errs) == 1 and errs[0][1] == "3" and re.search(r"Header::version\(", errs[0][0]) is not None and \
-                re.search(r"^\$?header|header$|Select::poll", errs[0][2]) is not None
+                (re.search(r"^\$?header|header$|Select::poll", errs[0][2]) is not None or
+                 (hdr is not None and errs[0][2] == hdr and errs[0][0] == "Header::version(%s)" % hdr))
             detail = {"handled": vals, "default_arm_errors": errs}
         ctx.ob("R-FLOW", "Connection::recv:unknown-pdu-error", ok,
                "recv answers any PDU type other than Serial Query / Reset Query / Error with an Error PDU (code 3) "
